@@ -4,18 +4,18 @@ CONSTANTS
   C0 = 2
   Sp0 = 8
   MaxBody = 2
-  Widths = {2, 3}
-  Ks = {2, 3, 5}
+  Widths = {2}
+  Ks = {3, 5}
   BNs = {FALSE, TRUE}
   Biases = {TRUE}
-  AllowDw = TRUE
+  AllowDw = FALSE
   AllowAdd = TRUE
   AllowPool = TRUE
   AllowCat = FALSE
   AllowSig = FALSE
   HeadW = 2
-  Folds = {FALSE, TRUE}
-  MaxRounds = 2
+  Folds = {FALSE}
+  MaxRounds = 1
   TimeChoices = "all"
   TupMode = "one"
   SelMode = "rot"
